@@ -53,22 +53,28 @@ fuzz_target!(|data: &[u8]| {
   let a = spec(&mut u, dm1, &anchor(dm1));
   let b = spec(&mut u, dm2, &anchor(dm2));
   let mut rec = Rec::new();
-  if let Err(v) = hpxv::props::c08::check_pair(&hpxv::props::c08::Pair { a: a.clone(), b: b.clone() }, &mut rec) {
-    panic!("C08 violation: {}/{}: {}", v.check, v.kind, v.detail);
+  use hpxv::engine::{fuzz_verdict, fuzz_wants};
+  if fuzz_wants("C08") {
+    fuzz_verdict("C08", hpxv::props::c08::check_pair(&hpxv::props::c08::Pair { a: a.clone(), b: b.clone() }, &mut rec));
   }
-  // views of the operands and of a chain of results (C09)
-  let (x, y) = (hpxv::props::bmoc_common::build(&a), hpxv::props::bmoc_common::build(&b));
-  for (name, r) in [("a", &x), ("b", &y)] {
-    if r.get_depth_max() <= 8 {
-      if let Err(v) = hpxv::props::c09::check_views(name, r) {
-        panic!("C09 violation: {}/{}: {}", v.check, v.kind, v.detail);
-      }
+  if fuzz_wants("C07") {
+    // ordinary MOCs: the full cells of both operands, packed (done by the oracle) and unpacked
+    let full = |s: &Spec| Spec::from_mcells(s.depth_max, &s.mcells().into_iter().filter(|c| c.full).collect::<Vec<_>>(), "fuzz");
+    for packed in [true, false] {
+      fuzz_verdict("C07", hpxv::props::c07::check_pair(&hpxv::props::c07::Pair { a: full(&a), b: full(&b), packed }, &mut rec));
     }
   }
-  let chain = x.or(&y).xor(&x.not()).and(&y.not());
-  if chain.get_depth_max() <= 8 {
-    if let Err(v) = hpxv::props::c09::check_views("(a or b) xor not(a) and not(b)", &chain) {
-      panic!("C09 violation: {}/{}: {}", v.check, v.kind, v.detail);
+  if fuzz_wants("C09") {
+    // views of the operands and of a chain of results
+    let (x, y) = (hpxv::props::bmoc_common::build(&a), hpxv::props::bmoc_common::build(&b));
+    for (name, r) in [("a", &x), ("b", &y)] {
+      if r.get_depth_max() <= 8 {
+        fuzz_verdict("C09", hpxv::props::c09::check_views(name, r).map(|_| ()));
+      }
+    }
+    let chain = x.or(&y).xor(&x.not()).and(&y.not());
+    if chain.get_depth_max() <= 8 {
+      fuzz_verdict("C09", hpxv::props::c09::check_views("(a or b) xor not(a) and not(b)", &chain).map(|_| ()));
     }
   }
 });
